@@ -139,7 +139,11 @@ struct Runner {
 			log("grideval", h, r, t, same);
 		} else if (f == "permute") {
 			uint32_t n = x.tw->get_ndim(); if (!n) return; std::vector<size_t> p(n); for (uint32_t i = 0; i < n; i++) p[i] = (i + 1) % n;
-			if (a >= 2) p[0] = a == 2 ? n + 2 : p[n - 1];        // out of range / duplicate (n > 1)
+			if (a >= 2 && rng.below(2)) p[0] = a == 2 ? n + 2 : p[n - 1];        // out of range / duplicate (n > 1)
+			else if (a >= 2) {   // the same two faults in an argument that is in ascending order
+				for (uint32_t i = 0; i < n; i++) p[i] = i;
+				if (a == 2) p[n - 1] = rng.below(2) ? n : (size_t)-1; else if (n > 1) p[n - 1] = p[n - 2]; else p[0] = 1;
+			}
 			std::vector<size_t> q = p; int r = splinetable_permute(&x.c, q.data()); bool t = ok([&]() { x.tw->permuteDimensions(p); });
 			log("permute", h, r, t, same_table(ctab(h), x.tw));
 		} else if (f == "convolve") {
@@ -148,12 +152,14 @@ struct Runner {
 			bool t = ok([&]() { x.tw->convolve(dim, k, nk); }); int r = splinetable_convolve(&x.c, dim, k, nk);
 			log("convolve", h, r, t, same_table(ctab(h), x.tw));
 		} else if (f == "glamfit") {
-			bool good = a == 1; size_t np = 10; ::ndsparse data; ndsparse_allocate(&data, np, 1); std::vector<double> w(np, 1.0), cx(np), kn; for (int k = -2; k <= 11; k++) kn.push_back(k);
+			bool good = a != 0; size_t np = 10; ::ndsparse data; ndsparse_allocate(&data, np, 1); std::vector<double> w(np, 1.0), cx(np), kn; for (int k = -2; k <= 11; k++) kn.push_back(k);
 			for (size_t i = 0; i < np; i++) { data.x[i] = std::cos(0.5 * i); data.i[0][i] = (unsigned)i; cx[i] = i; } data.ranges[0] = (unsigned)np;
 			if (!good) std::swap(kn[2], kn[6]);
 			const double* coords[1] = {cx.data()}; const double* knots[1] = {kn.data()}; uint64_t nkn[1] = {kn.size()}; uint32_t ord[1] = {2}, pen[1] = {2}; double sm[1] = {1e-2};
-			int r = splinetable_glamfit(&x.c, &data, w.data(), coords, ord, knots, nkn, sm, pen, PHOTOSPLINE_GLAM_NO_MONODIM, false);
-			bool t = ok([&]() { std::vector<std::vector<double>> cc{cx}, kk{kn}; std::vector<uint32_t> o{2}, p{2}; std::vector<double> s{1e-2}; x.tw->fit(data, w, cc, o, kk, s, p, Table::no_monodim, false); });
+			static const uint32_t nodim[] = {1, 2, 7, 0x80000000u, 0xfffffffeu};
+			uint32_t mono = a == 2 ? nodim[rng.below(5)] : a == 3 ? 0 : PHOTOSPLINE_GLAM_NO_MONODIM;
+			int r = splinetable_glamfit(&x.c, &data, w.data(), coords, ord, knots, nkn, sm, pen, mono, false);
+			bool t = ok([&]() { std::vector<std::vector<double>> cc{cx}, kk{kn}; std::vector<uint32_t> o{2}, p{2}; std::vector<double> s{1e-2}; x.tw->fit(data, w, cc, o, kk, s, p, mono == PHOTOSPLINE_GLAM_NO_MONODIM ? Table::no_monodim : mono, false); });
 			ndsparse_free(&data);
 			log("glamfit", h, r, t, same_table(ctab(h), x.tw));
 		}
